@@ -2,6 +2,7 @@ package main
 
 import (
 	"encoding/json"
+	"go/ast"
 	"fmt"
 	"os"
 	"path/filepath"
@@ -125,6 +126,51 @@ func main() {
 			}
 			for _, ef := range sp.Effects {
 				fmt.Printf("   %s %s base=%s val=%s args=%v\n", ef.Kind, ef.Target, ef.Base, ef.Val.String(), ef.Args)
+			}
+		}
+	case "symlit":
+		// symlit <Func> <n>: loop segment paths of the n-th function literal (source order) of Func
+		c := NewCtx("adhoc", tier, repo, verif)
+		p := c.G()
+		fd := p.Func(pos[0])
+		var lits []*ast.FuncLit
+		ast.Inspect(fd.Body, func(n ast.Node) bool {
+			if l, ok := n.(*ast.FuncLit); ok {
+				lits = append(lits, l)
+			}
+			return true
+		})
+		var k int
+		fmt.Sscan(pos[1], &k)
+		lit := lits[k]
+		var loop ast.Stmt
+		ast.Inspect(lit.Body, func(n ast.Node) bool {
+			if loop != nil {
+				return false
+			}
+			switch n.(type) {
+			case *ast.ForStmt, *ast.RangeStmt:
+				loop = n.(ast.Stmt)
+				return false
+			case *ast.FuncLit:
+				return n == ast.Node(lit)
+			}
+			return true
+		})
+		var sps []*SymPath
+		if loop != nil {
+			sps = p.BodyLoopSegmentPaths(fd, lit.Body, loop, 100000)
+		} else {
+			sps, _, _ = symPathsOfBody(p, fd, lit.Body, 100000)
+		}
+		fmt.Println("literals:", len(lits), "paths:", len(sps))
+		for i, sp := range sps {
+			fmt.Printf("--- path %d feasible=%v continues=%v\n", i, sp.Feasible(), sp.Continues)
+			for _, cd := range sp.Conds {
+				fmt.Println("   cond:", trunc(cd.String(), 150))
+			}
+			for _, ef := range sp.Effects {
+				fmt.Printf("   %s %s base=%s val=%s\n", ef.Kind, ef.Target, ef.Base, trunc(ef.Val.String(), 120))
 			}
 		}
 	case "describe":
